@@ -489,3 +489,46 @@ fn shim_lossy_owned(b: &[u8]) -> (r: String)
 fn shim_string_starts_with_char(s: &String, c: char) -> (r: bool)
     ensures r == (s@.len() > 0 && s@[0] == c)
 { s.starts_with(c) }
+
+// ---------------- lines / key=value ----------------
+pub open spec fn strip_cr(l: Seq<char>) -> Seq<char> { if l.len() > 0 && l.last() == '\r' { l.drop_last() } else { l } }
+/// str::lines(): split at '\n'; a '\r' directly before a '\n' is removed; no empty line after a final '\n'
+pub open spec fn lines_spec(cs: Seq<char>) -> Seq<Seq<char>> decreases cs.len() {
+    if cs.len() == 0 { seq![] } else {
+        let i = first_index_of(cs, '\n');
+        if i < 0 || i >= cs.len() { seq![cs] } else { seq![strip_cr(cs.take(i))] + lines_spec(cs.skip(i + 1)) }
+    }
+}
+// shim D6.str_lines
+#[verifier::external_body]
+fn shim_lines<'a>(s: &'a str) -> (r: Vec<&'a str>)
+    ensures r@.len() == lines_spec(s@).len(), forall|i: int| 0 <= i < r@.len() ==> (#[trigger] r@[i])@ == lines_spec(s@)[i]
+{ s.lines().collect() }
+// shim D6.splitn2_eq
+#[verifier::external_body]
+fn shim_splitn2_eq<'a>(s: &'a str) -> (r: Vec<&'a str>)
+    ensures first_index_of(s@, '=') >= 0 ==> (r@.len() == 2 && r@[0]@ == s@.take(first_index_of(s@, '=')) && r@[1]@ == s@.skip(first_index_of(s@, '=') + 1)),
+            first_index_of(s@, '=') < 0 ==> (r@.len() == 1 && r@[0]@ == s@),
+{ s.splitn(2, '=').collect() }
+/// text accepted by str::parse::<i64>: optional sign, at least one ASCII digit, value within i64
+pub open spec fn i64_text_value(cs: Seq<char>) -> Option<int> {
+    let neg = cs.len() > 0 && cs[0] == '-';
+    let ds = if cs.len() > 0 && (cs[0] == '-' || cs[0] == '+') { cs.skip(1) } else { cs };
+    if ds.len() >= 1 && all_digits(ds) {
+        let v = if neg { -dec_value(ds) } else { dec_value(ds) };
+        if i64::MIN <= v <= i64::MAX { Some(v) } else { None }
+    } else { None }
+}
+// shim D6.parse_i64_index
+#[verifier::external_body]
+fn shim_parse_i64_full(s: &str) -> (r: core::result::Result<i64, std::num::ParseIntError>)
+    ensures (match i64_text_value(s@) { Some(v) => r is Ok && r->Ok_0 == v, None => r is Err })
+{ s.parse::<i64>() }
+
+/// the statement's decomposition: split at the last '-'
+pub open spec fn base_of(name: Seq<char>) -> Seq<char> {
+    if last_index_of(name, '-') >= 0 { name.take(last_index_of(name, '-')) } else { name }
+}
+pub open spec fn version_of(name: Seq<char>) -> Seq<char> {
+    if last_index_of(name, '-') >= 0 { name.skip(last_index_of(name, '-') + 1) } else { Seq::<char>::empty() }
+}
